@@ -281,7 +281,11 @@ func (lq *LQ) SolveVecTo(dst *VecDense, trans bool, b Vector) error {
 	}
 
 	r, c := lq.lq.Dims()
-	if _, bc := b.Dims(); bc != 1 {
+	br, bc := b.Dims()
+	if bc != 1 {
+		panic(ErrShape)
+	}
+	if (trans && br != c) || (!trans && br != r) {
 		panic(ErrShape)
 	}
 
